@@ -153,7 +153,7 @@ let process (line : string) : string option =
   | ["wr"; a; v] -> Some (with1 a (fun x -> do_step (OWrite (x, n_of_int (int_of_string v)))))
   | ["clear"] -> Some (do_step OClear)
   | ["reserve"; k] -> Some (do_step (OReserve (nat_of_int (int_of_string k))))
-  | ["fork"] ->
+  | ["fork"] | ["forkfrom"] ->
       alt := Some { (copy_side !cur) with pend = []; reported = 0 }; Some "r ok"
   | ["swap"] ->
       (match !alt with
@@ -396,7 +396,7 @@ let monitor (opsf : string) (obsf : string) (outf : string) =
                             (match outcome_of () with Some OutUnit -> cur := { !cur with mever = int_of_string v :: !cur.mever } | _ -> ())
           | ["clear"] -> setp (Some OClear); !cur.mn := 0; Hashtbl.reset !cur.mset; cur := { !cur with mflags = "" }
           | ["reserve"; k] -> setp (Some (OReserve (nat_of_int (int_of_string k))))
-          | ["fork"] -> alt := Some { (mcopy !cur) with mdrops = []; mever = stored !cur.mar }; (if !fresh then pending := Some ("fork", None, None, !cur.mar)); fresh := false
+          | ["fork"] | ["forkfrom"] -> alt := Some { (mcopy !cur) with mdrops = []; mever = stored !cur.mar }; (if !fresh then pending := Some ("fork", None, None, !cur.mar)); fresh := false
           | ["swap"] ->
               (match !alt with
                | Some a -> let c = !cur in cur := a; alt := Some c
@@ -557,7 +557,20 @@ let macro_mode (casesf : string) (outf : string) =
            let lits = parse_lits (String.concat " " rest) in
            let a0 = empty_arena in
            let (a1, rootform) =
-             if form = "id" then begin
+             if form = "idp" then begin
+               (* the given root is anchored: top(999) -> [r(1000) with k children; 998] *)
+               match new_node !dbg (n_of_int 999) a0 with
+               | (a, Ok top) ->
+                   (match append_value !dbg top (n_of_int 1000) a with
+                    | (a, Ok r) ->
+                        let a = ref (fst (append_value !dbg top (n_of_int 998) a)) in
+                        for j = 0 to int_of_string k - 1 do
+                          (match append_value !dbg r (n_of_int (1001 + j)) !a with (a', _) -> a := a')
+                        done;
+                        (!a, RootId r)
+                    | (a, _) -> (a, RootValue (n_of_int 500)))
+               | (a, _) -> (a, RootValue (n_of_int 500))
+             end else if form = "id" then begin
                match new_node !dbg (n_of_int 1000) a0 with
                | (a, Ok r) ->
                    let a = ref a in
@@ -628,7 +641,7 @@ let emit_coq (opsf : string) (outf : string) (maxhist : int) =
        let toks = String.split_on_char ' ' line in
        (match toks with
         | ["hist"; _] -> flush_hist (); ignore (process line); acc := []; active := true; simple := true
-        | ["fork"] | ["swap"] | ["serde"] -> simple := false; ignore (process line)
+        | ["fork"] | ["forkfrom"] | ["swap"] | ["serde"] -> simple := false; ignore (process line)
         | _ ->
             (* record the resolved op before executing it *)
             let o = (match toks with
